@@ -55,7 +55,7 @@ func runOpenPath(t *testing.T, res *drv.Result, path []*tla.Edge, v openVariant,
 				buf = buf[:runtime.Stack(buf, true)]
 				_ = os.WriteFile(f, buf, 0o644)
 			}
-			viol("monitor", "panic-or-blocked", fmt.Sprintf("opening schedule ended with: %v", p), len(labels))
+			viol("conformance", "leftover-goroutines", fmt.Sprintf("opening schedule ended with: %v (a leak is not what C08 states)", p), len(labels))
 		}
 	}()
 	synctest.Test(t, func(t *testing.T) {
